@@ -24,7 +24,7 @@ C = {
  "C13": ("R", "fault_enumeration", "real trees: 5 histories x 3-4 endings, /dev/shm observed until the tracker has cleaned up; plus every execution within bound 1 of 8 lifecycle programs in engine S with the tracker message log checked against the simulated semaphore namespace", "the harness ends the remaining workers itself after the root ended; parent kill points other than end-of-history are not enumerated", "enumeration of histories x endings on real processes + deviation-bounded exploration in the simulator"),
  "C15": ("Q", "exploration", "all histories up to depth 3-4 over pickler selections and dumps() with 3 reducer maps, registries snapshotted after every operation; all built-in-reducer object kinds under both back-ends; executor reducer wiring; pickler recorded in call items", "worker-side use of the recorded pickler is not exercised on real processes", "exhaustive enumeration of operation histories / finite products on the real functions"),
  "C18": ("R", "fault_enumeration", "real children: every subset of extra parent descriptors x inheritable flag, env overlays (also observed at interpreter start-up), exit codes and signals, __main__ re-import per start method; engine S: no task runs in a worker that has not run the initializer, over all executions within the bound of programs with respawns, resizes and shutdown forms", "one OS schedule per real run; the schedule quantifier of the initializer clause is carried by engine S", "enumeration of configurations on real processes + deviation-bounded exploration in the simulator"),
- "C19": ("Q", "exploration", "full product MAX_DEPTH x depth x start method on the real _check_max_depth and constructor; depth shipped to / seen by every worker (also inside its initializer) in all executions within the bound of programs with respawns and resizes at parent depths 0..3", "simulated workers do not nest executors", "exhaustive enumeration of a finite configuration product + deviation-bounded exploration in the simulator"),
+ "C19": ("Q", "exploration", "full product MAX_DEPTH x depth x start method on the real _check_max_depth and constructor; depth shipped to / seen by every worker (also inside its initializer) in all executions within the bound of programs with respawns and resizes at parent depths 0..3; real chains of nested executors (27-58 configurations of limit x API x worker provenance x start method) one level beyond the limit", "simulated workers do not nest executors; real chains run one free schedule per configuration", "exhaustive enumeration of a finite configuration product + deviation-bounded exploration in the simulator"),
  "C16": ("Q", "exploration", "full product of object kinds x keep_wrapper x round trips x wrapper nesting, behaviour compared with the wrapped object", "objects live in an unimportable module namespace like a script's __main__", "exhaustive enumeration of a finite configuration product on the real functions"),
  "C17": ("Q", "exploration", "complete product (48 000 configurations) of OS count, affinity source, cgroup layout/ratio, override, physical-core probe outcome, only_physical_cores against an independent reference formula", "linux path; environment substituted at the level of the values loky reads", "exhaustive enumeration of a finite configuration product on the real function"),
 }
